@@ -33,6 +33,7 @@ type MutantEdit struct {
 	File    string `json:"file"`
 	Find    string `json:"find"`
 	Replace string `json:"replace"`
+	Line    int    `json:"line,omitempty"` // hint: line of the hunk in the original patch (disambiguates repeated anchors)
 }
 
 func mutantOverlay(repo, path string) (map[string][]byte, error) {
@@ -46,7 +47,7 @@ func mutantOverlay(repo, path string) (map[string][]byte, error) {
 	}
 	edits := m.Edits
 	if m.File != "" {
-		edits = append([]MutantEdit{{m.File, m.Find, m.Replace}}, edits...)
+		edits = append([]MutantEdit{{File: m.File, Find: m.Find, Replace: m.Replace}}, edits...)
 	}
 	out := map[string][]byte{}
 	for _, e := range edits {
@@ -59,10 +60,33 @@ func mutantOverlay(repo, path string) (map[string][]byte, error) {
 				return nil, fmt.Errorf("anchor file missing: %s", e.File)
 			}
 		}
-		if n := strings.Count(string(src), e.Find); n != 1 {
+		n := strings.Count(string(src), e.Find)
+		if n == 0 || (n != 1 && e.Line == 0) {
 			return nil, fmt.Errorf("anchor text occurs %d times in %s", n, e.File)
 		}
-		out[f] = []byte(strings.Replace(string(src), e.Find, e.Replace, 1))
+		if n == 1 {
+			out[f] = []byte(strings.Replace(string(src), e.Find, e.Replace, 1))
+			continue
+		}
+		// repeated anchor: take the occurrence that starts nearest to the hinted line
+		best, bestDist := -1, 1<<30
+		for off := 0; ; {
+			i := strings.Index(string(src)[off:], e.Find)
+			if i < 0 {
+				break
+			}
+			pos := off + i
+			line := 1 + strings.Count(string(src)[:pos], "\n")
+			d := line - e.Line
+			if d < 0 {
+				d = -d
+			}
+			if d < bestDist {
+				best, bestDist = pos, d
+			}
+			off = pos + 1
+		}
+		out[f] = []byte(string(src)[:best] + e.Replace + string(src)[best+len(e.Find):])
 	}
 	if len(out) == 0 {
 		return nil, fmt.Errorf("mutant has no edits")
